@@ -1,7 +1,10 @@
 (* C16 - The shuffle sampler emits wrapped translations with separated pivots.  Proofs in theories/Sampler/ShuffleProofs.v.
-   [repaired = true] is the current code (both fix commits); [repaired = false] the code as it was, whose two defects are refuted below. *)
-From Coq Require Import List Arith ZArith QArith Bool.
+   [repaired = true] is the current code (both fix commits); [repaired = false] the code as it was, whose two defects are refuted below.
+   The C16_src_* theorems at the end are re-proved on every run against genprops/SamplerGen.v, the translation of _remove_pivot_segment, of the
+   integer rule of _random_from_segments and of the shift / wrap in sample_from_continuum from the CURRENT sampler.py (harness/gen_sampler.py). *)
+From Coq Require Import String List Arith ZArith QArith Qround Bool Lia.
 From PGA Require Import Sampler.Shuffle Sampler.ShuffleProofs.
+From PGAprops Require Import SamplerGen.
 Import ListNotations.
 Local Open Scope Q_scope.
 
@@ -64,3 +67,33 @@ Theorem C16_wrap p binf bsup u :
   (ss u + p <= bsup -> ss (shift_unit p binf bsup u) == ss u + p) /\
   (bsup < ss u + p -> ss (shift_unit p binf bsup u) == ss u + p - (bsup - binf)).
 Proof. exact (shift_unit_start p binf bsup u). Qed.
+
+(* ---------------------------------------------------------------------------------------------------------------------------------
+   Tie to the source: the code as written IS the repaired model (so the theorems above with repaired = true are about the current code):
+   the zone removal per segment and over the popped list, the integer rule, the shift / wrap of a unit, and the statements fixing the rest of
+   a pass (half the average unit length, the bounds, the initial segment, the annotator choice, the retry loop). *)
+Theorem C16_src_piece p d sg : piece_src p d sg = piece true p d sg.
+Proof. destruct sg as [s e]. reflexivity. Qed.
+Theorem C16_src_remove_pivot p d l : remove_pivot_src p d l = remove_pivot true p d l.
+Proof.
+  unfold remove_pivot_src, remove_pivot. induction (rev l) as [|sg r IH]; [reflexivity|].
+  cbn [flat_map]. rewrite IH, C16_src_piece. reflexivity.
+Qed.
+Theorem C16_src_int_pivot sg x : int_pivot_src sg x = int_pivot true sg x.
+Proof.
+  unfold int_pivot_src, int_pivot, in_closed. cbv zeta. cbn [negb].
+  destruct (Qle_bool (fst sg) (qtrunc x) && Qle_bool (qtrunc x) (snd sg)); reflexivity.
+Qed.
+Theorem C16_src_shift_unit p binf bsup u : shift_unit_src p binf bsup u = shift_unit p binf bsup u.
+Proof. reflexivity. Qed.
+Theorem C16_src_shape :
+  sample_shape_src =
+  [("min_dist_between_pivots", "continuum.avg_length_unit / 2");
+   ("(bound_inf, bound_sup)", "continuum.bounds");
+   ("segments_available", "[Segment(bound_inf, bound_sup)] | self._remove_pivot_segment(pivot, segments_available, min_dist_between_pivots)");
+   ("rnd_annotator", "np.random.choice(annotators)");
+   ("new_annotator", "f'Sampled_annotation {idx}'");
+   ("annotators", "self._ground_truth_annotators");
+   ("while", "not new_continuum");
+   ("for", "range(len(annotators)); continuum.iter_annotator(rnd_annotator)")]%string.
+Proof. reflexivity. Qed.
